@@ -153,6 +153,7 @@ def cases(tier, seed):
         out.append({"k": "polyargs", "i": i})
     out.append({"k": "polyargs", "i": -1})
     out.append({"k": "three"})
+    out.append({"k": "twins"})
     out.sort(key=lambda c: {"polyargs": 0, "pairs": 1, "arrays": 2}.get(c["k"], 3))
     return out
 
@@ -275,6 +276,14 @@ def run_case(case, R):
                 except ValueError:
                     continue
                 judge_poly(R, f"tagged{shape}({la}, {lb})", lambda: p(a, b), exp, ["polyargs", "array_poly"])
+    elif k == "twins":
+        for i, sp in enumerate(space.twin_sequence()):
+            p, m = build_checked(sp), model_of(sp)
+            R.state(("twins", i))
+            vals = [2, -1, 3, 1][:len(sp["n"])]
+            exp = m.subs({n: V.const(v) for n, v in zip(sp["n"], vals)})
+            judge_numeric(R, f"twin {i} {sp['n']} {sp['t']}{tuple(vals)}", lambda: p(*vals), exp, tuple(sp["s"]), ["twins"])
+            judge_poly(R, f"twin {i} partial", lambda: p(**{sp["n"][-1]: 2}), m.subs({sp["n"][-1]: V.const(2)}), ["twins", "partial"])
     elif k == "three":
         names3 = ("q0", "q2", "q10")
         pool = [[((1, 0, 0), 1), ((0, 1, 1), -2)], [((0, 0, 2), 1), ((0, 0, 0), 3)], [((1, 1, 1), 1)], [((2, 0, 0), 1), ((0, 2, 0), -1), ((0, 0, 1), 2)]]
